@@ -601,8 +601,15 @@ namespace DFS
       return std::vector<int>{2, 1};
   }
 
-  std::vector<DFS::ImageFileFormat> make_candidate_list(const std::string& name)
+  std::vector<DFS::ImageFileFormat> make_candidate_list(const std::string& file_name)
   {
+    // A compressed image (foo.sdd.gz) gets the same hints as the
+    // uncompressed image (foo.sdd) would.
+    std::string name(file_name);
+    if (DFS::stringutil::ends_with(name, ".gz"))
+      {
+	name.resize(name.size() - 3);
+      }
     std::optional<DFS::Encoding> encoding_hint;
     std::optional<bool> interleaving_hint;
     std::optional<int> sides_hint;
